@@ -61,3 +61,13 @@ claim(
     "as C09; a handle is only closed by the actor using it (the statement speaks of peers)",
     "DESIGN.md 5/C13",
 )
+
+claim(
+    "C11",
+    "runtime monitor on a virtual-time loop: queue automaton driven in lock-step by the observed history (transitions taken at the exact instants marked by a pre-call observer on Condition.acquire), queue length cross-checked with statistics(); Event history oracle; enumerated refusal matrix",
+    "Held on every executed schedule: exhaustive sweep of the cancel cycle x placement x victim x scope|native "
+    "around one/two notifications over the 3-waiter base program, Event set/cancel sweeps, the complete refusal "
+    "matrix (3 caller kinds x 3 methods x 0-2 queued waiters) on {stock, eager}, plus seeded random programs.",
+    "as C09; wait() raising (not returning) after a NATIVE cancel during its shielded re-acquire is outside the statement and only counted",
+    "DESIGN.md 5/C11",
+)
